@@ -162,6 +162,7 @@ func (e Float32Engine) FMAScalar(a Tensor, x interface{}, y Tensor) (retVal Tens
 	if useIter {
 		err = execution.MulIterIncrVSF32(dataTensor.Float32s(), scalar, dataReuse.Float32s(), ait, iit)
 		retVal = reuse
+		return
 	}
 
 	execution.MulIncrVSF32(dataTensor.Float32s(), scalar, dataReuse.Float32s())
